@@ -204,10 +204,11 @@ func (w *world) gate(k int) chan string {
 }
 
 type params struct {
-	K    int    `json:"k"`
-	Obey bool   `json:"obey"`
-	C    int    `json:"c"`
-	Raw  string `json:"raw"` // method "raw": the pre-encoded result the handler returns
+	K     int    `json:"k"`
+	Obey  bool   `json:"obey"`
+	C     int    `json:"c"`
+	Raw   string `json:"raw"`   // method "raw": the pre-encoded result the handler returns
+	NoMsg bool   `json:"nomsg"` // method "err": the error has a code and no message text
 }
 
 func decodeParams(req *jrpc2.Request) params {
@@ -277,6 +278,11 @@ func (w *world) assign(ctx context.Context, method string) jrpc2.Handler {
 		case "ret", "svc.ret", "rpc.user", "rpc.":
 			return tok, nil
 		case "err":
+			if p.NoMsg {
+				// a handler may leave the message empty: the reply is an error object all the same
+				ret = fmt.Sprintf("errnomsg:%d", p.C)
+				return nil, &jrpc2.Error{Code: jrpc2.Code(p.C)}
+			}
 			ret = fmt.Sprintf("err:%d", p.C)
 			return nil, jrpc2.Errorf(jrpc2.Code(p.C), "handler error %d", p.K)
 		case "raw":
